@@ -26,7 +26,7 @@ LEVEL = "model_checking"
 MANIFEST = dict(
     category="model_checking",
     text="TLC checks, on explicit TLA+ models, that a member view is by construction slice i of the joint pass with shape batch x outputs, that the aggregate equals the moments of the uniform mixture (law of total variance), the bootstrap discipline (own bootstrap only, each position at most once per epoch, rectangular batches, only the remainder dropped), member isolation of one optimiser step, order/scale laws of the Gaussian NLL, locality laws of plan evaluation and of TS-inf propagation, and the Pendulum reward laws; every TLC-generated vector (exact dyadic expectations, linear forms in LN2 / PI^2 / named variances) is replayed into the real GaussianMLPEnsemble (__call__, base_predict, base_distribution, aggregate), gaussian_nll, evaluate_plans, ts_inf, pendulum_reward, and real train_ensemble / train_epoch runs are validated against the bootstrap specification (trace validation) - the right level because the defects of interest are shape/index/broadcast errors that small exhaustive lattices over ensemble size x outputs x input kind expose exactly.",
-    note="bounds: ensemble size 2-3, outputs 1-3, batch rows 1-3, one ReLU hidden layer of 2 nodes with dyadic parameters, data sets <= 32 rows / bootstrap samples <= 16 positions for trace validation; log-variances only through order/bound predicates and the saturated points (softplus is uninterpreted), ts_inf noise only through 8-sigma envelopes and a sample-variance band; Pendulum-vs-Gymnasium comparison is differential evidence outside the specification; trusted: TLC, spec/Exact.tla, the projection code in this driver, numeric values of LN2 and PI^2",
+    note="bounds: ensemble size 2-3 (1-4 for members that agree far from zero: offsets 50-200, spread 0 or ~2^-8, log-variance at / near the lower soft bound), outputs 1-3, batch rows 1-3, one ReLU hidden layer of 2 nodes with dyadic parameters, data sets <= 32 rows / bootstrap samples <= 16 positions for trace validation; log-variances only through order/bound predicates and the saturated points (softplus is uninterpreted), ts_inf noise only through 8-sigma envelopes and a sample-variance band; pendulum_reward batches of rank 0-4 with axis lengths 1-3, plan evaluation with the Pendulum reward for <= 4 plans x <= 4 particles x horizon <= 3 (incl. one particle / one plan / horizon 1), ts_inf with one or two members; Pendulum-vs-Gymnasium comparison is differential evidence outside the specification; trusted: TLC, spec/Exact.tla, the projection code in this driver, numeric values of LN2 and PI^2",
     technique="TLA+ specs + TLC (invariants, named deviation canaries); replay of TLC-generated vectors into GaussianMLPEnsemble.__call__/base_predict/base_distribution/aggregate, gaussian_nll, evaluate_plans, ts_inf, pendulum_reward; trace validation (EnsembleBootTrace) of train_ensemble with bootstrap/train_epoch interposed; version (digest) comparison of real train_epoch runs",
 )
 
@@ -171,7 +171,7 @@ def _report(rep, out, payload, prefix=""):
 
 # =============================================================== 1. views
 F, HD = 2, 2
-VIEW_INVS = ["ShapesOK", "SliceConsistent", "PerMemberGeneralisesJoint", "AggregateIsMixtureMoments", "MembersDiffer"]
+VIEW_INVS = ["ShapesOK", "SliceConsistent", "PerMemberGeneralisesJoint", "AggregateIsMixtureMoments", "AggregateOffsetFree", "MembersDiffer", "MembersAgreeFarFromZero"]
 _models = {}
 
 
@@ -387,7 +387,7 @@ def check_view(case, shared):
             if list(am.shape) != exp["agg_shape"] or list(av.shape) != exp["agg_shape"]:
                 out.add("aggregate:shape", f"aggregate shapes {am.shape}/{av.shape}, model {exp['agg_shape']} ({tagc})")
             else:
-                dy = E in (2, 4)  # mean over E members is dyadic
+                dy = E in (1, 2, 4)  # mean over E members is dyadic
                 wm = qarr(exp["agg_mean"])
                 # E = 3: E-1 additions and one division, each <= 1/2 ulp -> 4 ulp is generous; else exact
                 okm = np.array_equal(am.astype(np.float64), wm) if dy else np.all(within_ulps(am, wm, 4))
@@ -397,23 +397,46 @@ def check_view(case, shared):
                 V = np.asarray(jnp.exp(jnp.asarray(lvs))).astype(np.float64)
                 wv = float(Fraction(*exp["agg_vcoef"])) * V.sum(axis=0) + qarr(exp["agg_epi"])
                 # positive terms only; mean of V: E-1 add + div; var of means: <= 3E+1 ops; final add  -> 4 (E=2) / 8 (E=3) ulp
-                if not np.all(within_ulps(av, wv, 4 if dy else 8)):
-                    out.add("aggregate:var", f"aggregate variance {av.tolist()}, model (mean of member variances + variance of member means) {wv.tolist()} ({tagc})")
+                # of the TRUE value wv - never of the squared mean: an absolute error of the order eps * mean^2 (what a
+                # one-pass second-moment formula leaves after cancellation) is far outside whenever wv << mean^2
+                ulv = 4 if E <= 2 else 8  # E = 4 (class "agree" only): 3 + 7 + 1 roundings of <= 1/2 ulp -> 8
+                okv = within_ulps(av, wv, ulv)
+                if case["cfg"].get("cls") == "agree" and not dy:
+                    # members far from zero, mean over E = 3 not dyadic: the documented two-term formula centres the member
+                    # means mu_i at the ROUNDED mean m' (E-1 additions of partial sums <= E*max|mu| and one division /
+                    # reciprocal multiplication: |m' - m| <= delta = (E+1) * 2^-24 * max|mu|), so that each squared distance
+                    # (mu_i - m')^2 is off by <= 2 |mu_i - m| delta + delta^2 - counted from TLC's exact max|mu_i| and
+                    # max|mu_i - m|; on the dyadic sizes (1, 2, 4) m' = m and nothing is added
+                    delta = (E + 1) * EPS32 * qarr(exp["agg_maxabs"])
+                    slack = 2.0 * qarr(exp["agg_dev"]) * delta + delta**2
+                    sp = np.spacing(np.abs(wv).astype(np.float32)).astype(np.float64)
+                    okv = np.abs(av.astype(np.float64) - wv) <= 8 * sp + slack
+                if not np.all(okv):
+                    far = " (members agree far from zero: the variance must not be lost against the squared mean)" if case["cfg"].get("cls") == "agree" else ""
+                    out.add("aggregate:var", f"aggregate variance {av.tolist()}, model (mean of member variances + variance of member means) {wv.tolist()}{far} ({tagc})")
     return out
 
 
 def views_constants(quick):
-    return dict(Dev="none", Es={2, 3}, Os={1, 2, 3}, NPat=2 if quick else 4, NXPat=1 if quick else 2)
+    C = dict(Dev="none", Es={2, 3}, Os={1, 2, 3}, NPat=2 if quick else 4, NXPat=1 if quick else 2)
+    # class "agree" (members (nearly) agree far from zero, log-variance at / near the lower soft bound; ensemble of ONE member)
+    if quick:
+        C.update(ACfgs={12, 22, 32}, NAgree=3, ANs={2})
+    else:
+        C.update(ACfgs={11, 12, 22, 33, 42}, NAgree=6, ANs={1, 3})
+    return C
 
 
 def plan_views(pool, quick):
     C = views_constants(quick)
     pool.generate("views", "Ensemble", C)
     pool.model_check("Ensemble", C, VIEW_INVS, "Ensemble views: invariants", covered=["ChooseConfig", "ChooseParams", "ChooseInput", "ChooseMember"] if quick else None)
-    small = dict(C, NPat=2, NXPat=1)
+    small = views_constants(True)
     pool.canary("Ensemble", small, "outer_var", "ShapesOK")
     pool.canary("Ensemble", small, "vector_row0", "SliceConsistent")
     pool.canary("Ensemble", small, "no_epistemic", "AggregateIsMixtureMoments")
+    # second moment of the member means instead of their variance: refuted by offset freedom on exactly agreeing members
+    pool.canary("Ensemble", dict(small, NPat=1, Os={1}, ACfgs={21}, NAgree=1, ANs={2}), "uncentred_epistemic", "AggregateOffsetFree")
 
 
 def part_views(rep, pool):
@@ -434,8 +457,30 @@ def part_views(rep, pool):
             n += 1
             _report(rep, out, {"part": "views", "case": case, "shared": shared})
         lb = case["par"]["lb"]
-        if any(len(set(row)) > 1 for row in lb) or case["cfg"]["O"] == 1:
+        agg_far = case["cfg"]["cls"] == "agree" and case["inp"]["kind"] == "batch" and case["member"] == 0
+        if any(len(set(row)) > 1 for row in lb) or case["cfg"]["O"] == 1 or agg_far:
             nontrivial += 1
+    # vacuity guard (class "agree"): aggregate vectors whose members agree far from zero, with one and with several members
+    agree = [c for c in cases if c["cfg"]["cls"] == "agree" and c["inp"]["kind"] == "batch" and c["member"] == 0]
+    for want_single in (True, False):
+        if not any(
+            (c["cfg"]["E"] == 1) == want_single and float(np.min(qarr(c["exp"]["agg_maxabs"]))) >= 50.0 and any("lo" in row for row in c["exp"]["lvclass"])
+            for c in agree
+        ):
+            raise tlc.MachineryError(f"no aggregate vector with agreeing members far from zero (single member: {want_single})")
+    # binding canary (class "agree"): an expected variance that is off by 2^-24 * mean^2 - the order of what is left when the
+    # second moments cancel - must be noticed; the comparison is relative to the true variance, not to the squared mean
+    bad = json.loads(json.dumps(agree[len(agree) // 2]))
+    for r, row in enumerate(bad["exp"]["agg_epi"]):
+        for k, q in enumerate(row):
+            v = Fraction(*q) + Fraction(*bad["exp"]["agg_mean"][r][k]) ** 2 / 2**24
+            row[k] = [v.numerator, v.denominator]
+    layout = (bad["cfg"]["E"] + bad["cfg"]["O"]) % 2 == 0
+    if not any(k == "aggregate:var" for k, _ in check_view(bad, layout).items):
+        raise tlc.MachineryError("binding canary: aggregate variance off by 2^-24 * mean^2 not noticed")
+    rep.extra["views_agreeing_members_vectors"] = sum(1 for c in cases if c["cfg"]["cls"] == "agree")
+    rep.extra["views_agreeing_members_aggregates"] = len(agree)
+    rep.sample({"views_agree": {k: agree[0][k] for k in ("cfg", "inp")}, "bm": agree[0]["par"]["bm"], "lb": agree[0]["par"]["lb"], "exp_agg_epi": agree[0]["exp"]["agg_epi"]})
     # binding canary: a corrupted expectation must be noticed
     bad = json.loads(json.dumps(cases[len(cases) // 2]))
     q = bad["exp"]["joint_mean"][0][0][0]
@@ -934,15 +979,15 @@ PROP_INVS = ["ParticleKeepsMember", "StepIsDelta", "MembersDifferP"]
 _prop_models = {}
 
 
-def prop_model(O, shared):
+def prop_model(O, shared, E=2):
     from flax import nnx
 
     from rl_blox.blox.probabilistic_ensemble import GaussianMLPEnsemble
 
-    k = (O, shared)
+    k = (O, shared, E)
     if k not in _prop_models:
         _prop_models[k] = GaussianMLPEnsemble(
-            n_ensemble=2, shared_head=shared, n_features=O + 1, n_outputs=O, hidden_nodes=[], activation="relu", rngs=nnx.Rngs(0)
+            n_ensemble=E, shared_head=shared, n_features=O + 1, n_outputs=O, hidden_nodes=[], activation="relu", rngs=nnx.Rngs(0)
         )
     return _prop_models[k]
 
@@ -975,9 +1020,9 @@ def check_prop(case, shared, seed):
     from rl_blox.algorithm.pets import ts_inf
 
     out = Out()
-    S, P, H, O = case["dims"]
+    S, P, H, O = case["dims"][:4]
     par = case["par"]
-    model = prop_model(O, shared)
+    model = prop_model(O, shared, len(par["b"]))  # members: two, or the number named by the dims code (one member)
     load_prop_params(model, par, O, shared)
     acts = jnp.asarray(qarr(case["acts"]).astype(np.float32).reshape(S, H, 1))
     obs0 = jnp.asarray(qarr(par["obs0"]).astype(np.float32))
@@ -1048,7 +1093,8 @@ def check_noise(O, shared, pattern, seed, bd_failed):
 
 
 def plan_prop(pool, quick):
-    C = dict(Dev="none", Dims={2222, 1332} if quick else {2221, 2222, 1332, 2323, 3213}, NPat=2 if quick else 4, RKinds={"both"}, TrajPats=0)
+    # 5-digit codes ESPHO: E members.  12122: ONE member, one particle;  2122 / 2212: one particle / horizon 1 with two members
+    C = dict(Dev="none", Dims={2222, 1332, 12122} if quick else {2221, 2222, 1332, 2323, 3213, 12122, 11313, 2122, 2212}, NPat=2 if quick else 4, RKinds={"both"}, TrajPats=0)
     pool.generate("prop", "EnsemblePlan", C, next="NextProp")
     pool.model_check("EnsemblePlan", C, PROP_INVS, "EnsemblePlan TsInf invariants", next="NextProp")
     small = dict(C, Dims={2222}, NPat=2)
@@ -1124,6 +1170,82 @@ def check_pend(cases, single=False):
     return out
 
 
+def _pend_point(o, u=None):
+    q = lambda t: float(Fraction(*t))
+    return [q(o["c"]), q(o["s"]), q(o["v"])] if u is None else [q(u)]
+
+
+def _form_value(f):
+    return float(Fraction(*f["c"])) + float(Fraction(*f["pisq"])) * PISQ
+
+
+def check_pend_batch(case):
+    """pendulum_reward on one TLC batch (EnsemblePend.NextBatch): batch shape sh of any rank, singleton axes anywhere"""
+    import jax.numpy as jnp
+
+    from rl_blox.algorithm.pets_reward_models import pendulum_reward
+
+    out = Out()
+    b = case["batch"]
+    sh = tuple(b["shape"])
+    obs = np.asarray([_pend_point(o) for o in b["obs"]], dtype=np.float32).reshape(sh + (3,))
+    act = np.asarray([_pend_point(None, u) for u in b["act"]], dtype=np.float32).reshape(sh + (1,))
+    want = np.asarray([_form_value(f) for f in case["exp"]], dtype=np.float64)
+    tagc = f"batch shape {list(sh)} (actions {list(act.shape)}, observations {list(obs.shape)}), pattern {b['q']}"
+    try:
+        got = np.asarray(pendulum_reward(jnp.asarray(act), jnp.asarray(obs)))
+    except Exception as e:  # the specification defines a result for every batch shape
+        out.add("pendulum_reward:batch_raises", f"pendulum_reward raised {type(e).__name__}: {str(e)[:200]} on {tagc}")
+        return out
+    if list(got.shape) != case["out_shape"]:
+        out.add(
+            "pendulum_reward:batch_shape",
+            f"pendulum_reward returned shape {list(got.shape)} on {tagc}; the model's result has the batch shape {case['out_shape']} "
+            f"(one reward per pair - axes of length one are batch axes like any other)",
+        )
+        return out
+    # same count as on the point lattice (check_pend): 16 ulp
+    ok = within_ulps(got.reshape(-1), want, 16)
+    for j in np.nonzero(~ok)[0][:2]:
+        out.add("pendulum_reward:batch_value", f"pendulum_reward[{j}] = {got.reshape(-1)[j]!r}, model {case['exp'][j]} = {want[j]!r} at obs {b['obs'][j]} torque {b['act'][j]} on {tagc}")
+    return out
+
+
+def check_pend_plan(case):
+    """evaluate_plans with the bundled Pendulum reward model on one TLC vector (EnsemblePend.NextPlan)"""
+    import jax.numpy as jnp
+
+    from rl_blox.algorithm.pets import evaluate_plans
+    from rl_blox.algorithm.pets_reward_models import pendulum_reward
+
+    out = Out()
+    pl = case["plan"]
+    S, P, H = pl["dims"]
+    acts = np.asarray([[_pend_point(None, u) for u in row] for row in pl["acts"]], dtype=np.float32).reshape(S, H, 1)
+    traj = np.asarray([[[_pend_point(o) for o in part] for part in plan] for plan in pl["traj"]], dtype=np.float32).reshape(S, P, H + 1, 3)
+    want = np.asarray([_form_value(f) for f in case["exp"]], dtype=np.float64)
+    tagc = f"{S} plans x {P} particle(s) x horizon {H}, pattern {pl['q']}"
+    try:
+        v = np.asarray(evaluate_plans(jnp.asarray(acts), jnp.asarray(traj), pendulum_reward))
+    except Exception as e:
+        out.add("evaluate_plans:pendulum_raises", f"evaluate_plans(.., pendulum_reward) raised {type(e).__name__}: {str(e)[:200]} ({tagc})")
+        return out
+    if v.shape != (S,):
+        out.add("evaluate_plans:pendulum_shape", f"evaluate_plans(.., pendulum_reward) returned shape {v.shape}, one value per plan expected ({S},) ({tagc})")
+        return out
+    # every reward is <= 0 (no cancellation): each within 16 ulp of itself (check_pend) -> their sum within 32 ulp of the total
+    # (sum of ulps <= 2 ulp of the sum); H-1 additions along the horizon, P-1 additions and one division over the particles,
+    # each <= 1/2 ulp of a partial sum that is <= the total in magnitude  ->  32 + H + P ulp
+    ok = within_ulps(v, want, 32 + H + P)
+    if not np.all(ok):
+        out.add(
+            "evaluate_plans:pendulum_value",
+            f"evaluate_plans(.., pendulum_reward) = {v.tolist()}, model (particle mean of the Pendulum rewards of each plan's own torques summed along its trajectory) "
+            f"{want.tolist()} for {tagc}; torques {acts[..., 0].tolist()}",
+        )
+    return out
+
+
 def differential_pendulum(rep):
     """pendulum_reward vs Gymnasium's Pendulum-v1 on random states (differential evidence, outside the specification)"""
     import gymnasium as gym
@@ -1172,11 +1294,43 @@ def differential_pendulum(rep):
     return int(wellcond.sum())
 
 
+PEND_BATCH_INVS = ["BatchShapeKept", "BatchPointwise"]
+PEND_PLAN_INVS = ["PlanLocalPend", "SingleParticleIsPlainSum", "LastObsIgnoredPend", "RestIsTorqueCost"]
+
+
+def _shape_codes(lengths, ranks):
+    """decimal codes of all batch shapes with the given axis lengths and ranks (0 = rank 0)"""
+    import itertools
+
+    return {int("".join(map(str, sh)) or "0") for r in ranks for sh in itertools.product(sorted(lengths), repeat=r)}
+
+
+def pend_constants(quick):
+    if quick:
+        # every rank 0-3 with a singleton axis in every position (lengths 1, 2) and three rank-4 shapes;
+        # plans: one particle with 2-3 candidate plans, one plan, horizon 1, several particles
+        return dict(Dev="none", Shapes=_shape_codes({1, 2}, range(4)) | {1212, 2121, 2112}, Dims={211, 212, 312, 112, 121, 221, 222, 132}, NPat=3)
+    return dict(
+        Dev="none",
+        Shapes=_shape_codes({1, 2, 3}, range(4)) | _shape_codes({1, 2}, [4]),
+        Dims={111, 211, 212, 312, 213, 413, 112, 121, 221, 222, 132, 231, 241, 322, 142, 313},
+        NPat=6,
+    )
+
+
 def plan_pend(pool, quick):
-    C = dict(Dev="none")
+    C = pend_constants(quick)
     pool.generate("pend", "EnsemblePend", C)
+    pool.generate("pendbatch", "EnsemblePend", C, next="NextBatch")
+    pool.generate("pendplan", "EnsemblePend", C, next="NextPlan")
     pool.model_check("EnsemblePend", C, PEND_INVS, "EnsemblePend invariants")
+    pool.model_check("EnsemblePend", C, PEND_BATCH_INVS, "EnsemblePend batch invariants (every rank, singleton axes)", next="NextBatch")
+    pool.model_check("EnsemblePend", C, PEND_PLAN_INVS, "EnsemblePend plan evaluation with the Pendulum reward", next="NextPlan")
     pool.canary("EnsemblePend", C, "no_clip", "TorqueSaturates")
+    small = dict(C, Shapes={21, 121}, Dims={212}, NPat=1)
+    pool.canary("EnsemblePend", small, "squeeze_all", "BatchShapeKept", next="NextBatch")
+    pool.canary("EnsemblePend", small, "torque_axis_collapsed", "PlanLocalPend", next="NextPlan")
+    pool.canary("EnsemblePend", small, "torque_axis_collapsed", "SingleParticleIsPlainSum", next="NextPlan")
 
 
 def part_pend(rep, pool):
@@ -1191,8 +1345,38 @@ def part_pend(rep, pool):
     if not check_pend(bad):
         raise tlc.MachineryError("binding canary: corrupted pendulum form not noticed")
     n = len(cases) + len(cases[::step])
+    # the vectorised reward model on batches of every rank, and plan evaluation with it
+    batches = pool.emitted("pendbatch")
+    plans = pool.emitted("pendplan")
+    # vacuity guards: a singleton axis in an interior / trailing position of a batch with another axis > 1, and plan evaluation
+    # with ONE particle and >= 2 candidate plans whose torque costs differ (TLC's CostsDiffer)
+    if not any(1 in c["batch"]["shape"][1:] and max(c["batch"]["shape"]) > 1 for c in batches):
+        raise tlc.MachineryError("no pendulum batch with an interior singleton axis")
+    if not any(c["plan"]["dims"][1] == 1 and c["plan"]["dims"][0] >= 2 and c["costs_differ"] for c in plans):
+        raise tlc.MachineryError("no plan-evaluation vector with one particle and >= 2 plans whose torque costs differ")
+    # one particle with several plans of different torque costs first: the first reported case of a key is the most telling one
+    plans.sort(key=lambda c: not (c["plan"]["dims"][1] == 1 and c["plan"]["dims"][0] >= 2 and c["costs_differ"]))
+    for case in batches:
+        _report(rep, check_pend_batch(case), {"part": "pendbatch", "case": case})
+    for case in plans:
+        _report(rep, check_pend_plan(case), {"part": "pendplan", "case": case})
+    # binding canaries: a result shape without its singleton axes / a plan value charged another plan's torque cost must be noticed
+    bad = json.loads(json.dumps(next(c for c in batches if 1 in c["batch"]["shape"][1:] and max(c["batch"]["shape"]) > 1)))
+    bad["out_shape"] = [d for d in bad["out_shape"] if d != 1]
+    if not any(k == "pendulum_reward:batch_shape" for k, _ in check_pend_batch(bad).items):
+        raise tlc.MachineryError("binding canary: corrupted batch shape of the pendulum reward not noticed")
+    bad = json.loads(json.dumps(next(c for c in plans if c["plan"]["dims"][1] == 1 and c["plan"]["dims"][0] >= 2 and c["costs_differ"])))
+    bad["exp"][0], bad["exp"][1] = bad["exp"][1], bad["exp"][0]
+    costs = {json.dumps(f) for f in bad["exp"][:2]}
+    if len(costs) > 1 and not any(k == "evaluate_plans:pendulum_value" for k, _ in check_pend_plan(bad).items):
+        raise tlc.MachineryError("binding canary: exchanged plan values (Pendulum reward) not noticed")
+    n += len(batches) + len(plans)
+    rep.extra["pendulum_batch_shapes"] = sorted({json.dumps(c["batch"]["shape"]) for c in batches})
+    rep.extra["pendulum_plan_dims"] = sorted({json.dumps(c["plan"]["dims"]) for c in plans})
     rep.traces += n
     rep.sample({"pendulum_reward": cases[len(cases) // 2]})
+    pl = next(c for c in plans if c["plan"]["dims"][1] == 1 and c["plan"]["dims"][0] >= 2 and c["costs_differ"])
+    rep.sample({"evaluate_plans_pendulum": {"dims": pl["plan"]["dims"], "acts": pl["plan"]["acts"]}, "exp": pl["exp"]})
     nd = differential_pendulum(rep)
     return n, nd
 
@@ -1240,8 +1424,9 @@ def run(rep):
         print("timing", timing, "total", round(time.time() - t0, 1))
     rep.rule = (
         "TLC enumerates staged test vectors: (ensemble size 2-3) x (outputs 1-3) x parameter pattern x (vector | batch of 1-3 rows | per-member batch) x input pattern x member "
-        "for the views/aggregate; all NLL vectors with <= 2 entries over 3 means x 3 targets x 5 log-variances j*LN2 plus patterned 4-8 entry vectors; all plan/trajectory tag assignments for 7 small (plans, particles, horizon) "
-        "shapes plus seeded TLC simulation for 3-4 particles; TS-inf vectors over member assignments x parameter patterns; the 360-point Pendulum lattice; bootstrap traces are recorded from real train_ensemble runs "
+        "for the views/aggregate, plus the class of members that (nearly) agree far from zero (ensemble size 1-4, common output offset 50-200, zero / 2^-8 output weights or copies of one member, "
+        "raw log-variance saturating low) where the aggregate variance is compared relative to its true value; all NLL vectors with <= 2 entries over 3 means x 3 targets x 5 log-variances j*LN2 plus patterned 4-8 entry vectors; all plan/trajectory tag assignments for 7 small (plans, particles, horizon) "
+        "shapes plus seeded TLC simulation for 3-4 particles; TS-inf vectors over member assignments x parameter patterns; the 360-point Pendulum lattice, Pendulum batches of every rank 0-3 (and rank 4) with singleton axes in every position, and evaluate_plans with the Pendulum reward over (plans, particles, horizon) shapes including one particle with 2-4 plans of different torque cost; bootstrap traces are recorded from real train_ensemble runs "
         "(5-9 configurations x seeds) and validated by EnsembleBootTrace; isolation vectors are sampled (seeded) from TLC's (index tensor, perturbed rows) pairs. "
         "A views vector is non-trivial when outputs carry different raw log-variances or there is a single output (members always differ, checked by the MembersDiffer invariant)."
     )
@@ -1279,6 +1464,10 @@ def replay(path, rep):
         out = check_noise(pay["pattern"]["nout"], pay["shared"], pay["pattern"], pay["seed"], False)
     elif part == "pend":
         out = check_pend(pay["cases"])
+    elif part == "pendbatch":
+        out = check_pend_batch(pay["case"])
+    elif part == "pendplan":
+        out = check_pend_plan(pay["case"])
     elif part == "boot":
         cfg = pay["cfg"]
         t = record_trace(cfg, pay["key_seed"], pay.get("call_through", False))
